@@ -43,6 +43,14 @@ RULE = ('for each call form: all tables of n rows (two fields) x every subset of
         'downstream fieldmap (copy, composed, record functions) / convert (incl. pass_row, builtin int) / rowmap '
         '(incl. lazy rows) run with the policy under test, x the type the upstream functions raise.  The policy must '
         'react only to exceptions RAISED by the user function of this stage.  '
+        'Positional policy: for the operators whose documented signature has failonerror at a fixed position '
+        '(fieldmap(table, mappings, failonerror, errorvalue), rowmap / rowmapmany(table, f, header, failonerror)) '
+        'every fieldmap / rowmap / rowmapmany form is also run with the policy (and errorvalue) passed by position, '
+        'in function and in Table-method syntax, while petl.config.failonerror holds a different policy.  '
+        'Hash-equal and repeated cells: every table of <= 2 rows (3 thorough) whose columns are drawn from '
+        '{failing text, 2, 2.0, True, 1.0} / {failing text, 3, 3.0} with type-sensitive user functions (floats '
+        'fail, the hash-equal int / bool does not), pure and fail-once: a cell must not inherit the outcome of an '
+        'equal or repeated cell seen earlier.  '
         'Stateful user functions: every form that has user functions is also run with fail-once functions (raise '
         'only the first time they meet an offending value, succeed on a retry; None always fails) and with '
         'call-counting functions (a result carries how often this function was called with these arguments) over '
@@ -60,7 +68,7 @@ ASSUMPTIONS = ['tables have <= 4 rows (5 thorough) and two fields; user function
                'the config default is read when the view is constructed (anchor petl/transform/conversions.py:338)']
 
 POLICIES = (False, True, 'inline')
-MODES = ('arg', 'arg-vs-config', 'config', 'none-arg+config', 'config-at-construction')
+MODES = ('arg', 'arg-vs-config', 'config', 'none-arg+config', 'config-at-construction')   # + POS_MODES
 ERRORVALUES = (ref.OMIT, None, 'ERR')
 _OTHER = {False: True, True: 'inline', 'inline': False}
 
@@ -86,6 +94,8 @@ def bounds(tier, seed):
             'forms': len(BUILD), 'policies': 3, 'user_exception_types': list(ref.KIND_ORDER),
             'data_exception_classes': list(ref.DATA_CLASS_ORDER), 'data_exception_space_max_rows': 3 if tier == 'thorough' else 2,
             'pipelines': ['%s -> %s' % (u, d) for u in UPSTREAMS for d in DOWNSTREAMS],
+            'positional_policy_forms': sorted(POSBUILD), 'positional_modes': list(POS_MODES),
+            'hash_equal_alphabets': [[repr(x) for x in col] for col in ref.eq_alphabets(_R)],
             'user_function_states': list(ref.STATES), 'call_log': 'informational counter only',
             'exception_type_space_max_rows': 3 if tier == 'thorough' else 2,
             'short_row_forms_max_rows': 4 if tier == 'thorough' else 3, 'modes': list(MODES), 'errorvalues': ['<omitted>', None, 'ERR']}
@@ -171,6 +181,60 @@ BUILD = {
 }
 
 
+# ---- the policy passed POSITIONALLY, where the documented signature has it at a fixed position:
+# ----   fieldmap(table, mappings=None, failonerror=None, errorvalue=None)
+# ----   rowmap(table, rowmapper, header, failonerror=None)     rowmapmany(table, rowgenerator, header, failonerror=None)
+# ---- in function syntax and in Table-method syntax.  name -> build(table, policy, errorvalue|OMIT, method)
+def _pos_rows(opname, fn, header):
+    def build(t, policy, ev, method):
+        if method:
+            return getattr(etl.wrap(t), opname)(fn, header, policy)
+        return getattr(etl, opname)(t, fn, header, policy)
+    return build
+
+
+def _pos_fieldmap(mk, after=None):
+    def build(t, policy, ev, method):
+        args = (mk(), policy) + (() if (ev is ref.OMIT or ev == ref.OMIT) else (ev,))
+        v = etl.wrap(t).fieldmap(*args) if method else etl.fieldmap(t, *args)
+        if after is not None:
+            after(v)
+        return v
+    return build
+
+
+def _suffix_after(v):
+    v['p'] = ('a', ref.conv)
+    v['q'] = 'b'
+
+
+POSBUILD = {
+    'fieldmap{p: (a, f), q: (b, g), r: a}': _pos_fieldmap(
+        lambda: _od(('p', ('a', ref.conv)), ('q', ('b', ref.conv2)), ('r', 'a'))),
+    'fieldmap{p: rowfun, q: rowfun}': _pos_fieldmap(lambda: _od(('p', ref.rowfun_p), ('q', ref.rowfun_q))),
+    'fieldmap{p: "int({a})", q: "{b}"}': _pos_fieldmap(lambda: _od(('p', 'int({a})'), ('q', '{b}'))),
+    'fieldmap()[p] = (a, f); [q] = b': _pos_fieldmap(lambda: None, _suffix_after),
+    'fieldmap{a: (a, f), b: b}': _pos_fieldmap(lambda: _od(('a', ('a', ref.conv)), ('b', 'b'))),
+    'fieldmap{p: (a, f), q: (b, f), r: b} on short rows': _pos_fieldmap(
+        lambda: _od(('p', ('a', ref.convs)), ('q', ('b', ref.convs)), ('r', 'b'))),
+    'fieldmap{p: recfun(b), q: recfun(a)} on short rows': _pos_fieldmap(
+        lambda: _od(('p', ref.recfun_sb), ('q', ref.recfun_sa))),
+    'fieldmap{p: "int({b})", q: "{a}"} on short rows': _pos_fieldmap(lambda: _od(('p', 'int({b})'), ('q', '{a}'))),
+    'rowmap(f)': _pos_rows('rowmap', ref.rowmapper, ('x', 'y', 'z')),
+    'rowmap(natural)': _pos_rows('rowmap', ref.rowmapper_natural, ('x', 'y')),
+    'rowmap(f reading both fields) on short rows': _pos_rows('rowmap', ref.rowmapper_s, ('x', 'y')),
+    'rowmap(f -> generator expression)': _pos_rows('rowmap', ref.lazy_genexpr_mapper, ('x', 'y')),
+    'rowmap(f -> map object)': _pos_rows('rowmap', ref.lazy_map_mapper, ('x', 'y')),
+    'rowmap(f -> iterator object)': _pos_rows('rowmap', ref.lazy_iter_mapper, ('x', 'y')),
+    'rowmap(f -> map(int, row))': _pos_rows('rowmap', ref.lazy_natural_mapper, ('x', 'y')),
+    'rowmapmany(generator)': _pos_rows('rowmapmany', ref.rowgenerator, ('x', 'j', 'y')),
+    'rowmapmany(list function)': _pos_rows('rowmapmany', ref.rowlister, ('x', 'j', 'y')),
+    'rowmapmany(generator of lazy rows)': _pos_rows('rowmapmany', ref.lazy_rowgenerator, ('x', 'j', 'y')),
+    'rowmapmany(list of lazy rows)': _pos_rows('rowmapmany', ref.lazy_rowlister, ('x', 'j', 'y')),
+}
+POS_MODES = ('positional', 'positional-method')
+
+
 def _function(form):
     for f in ('rowmapmany', 'rowmap', 'fieldmap'):
         if form.startswith(f):
@@ -237,6 +301,9 @@ def _observe(form, tbl, policy, mode, errorvalue, selected, upstream=None):
             config.failonerror = policy
         elif mode == 'config-at-construction':
             config.failonerror = policy
+        elif mode in POS_MODES:
+            # policy (and errorvalue) by position; the config default is a different policy
+            config.failonerror = _OTHER[policy]
         else:
             raise ValueError(mode)
         try:
@@ -244,7 +311,10 @@ def _observe(form, tbl, policy, mode, errorvalue, selected, upstream=None):
             if upstream is not None:
                 # upstream stage of a pipeline: always failonerror='inline' (explicit argument)
                 src = BUILD[upstream](tbl, {'failonerror': 'inline'}, sel)
-            view = BUILD[form](src, kw, sel)
+            if mode in POS_MODES:
+                view = POSBUILD[form](src, policy, errorvalue, mode == 'positional-method')
+            else:
+                view = BUILD[form](src, kw, sel)
         except Exception as e:
             return delivered, _payload(e), 'construction'
         if mode == 'config-at-construction':
@@ -394,10 +464,18 @@ def items(tier, seed):
             nmax = _nmax(tier)
         for n in range(0, nmax + 1):
             if n == nmax and n >= 3:
-                for mode in MODES:          # split the big ones
+                # split the big ones; quick runs the largest size with two ways of supplying the policy only
+                for mode in (MODES if tier == 'thorough' else ('arg', 'config')):
                     out.append((form, n, (mode,)))
             else:
                 out.append((form, n, MODES))
+    for form in spaces.rotate(sorted(POSBUILD), seed):
+        st = ref.FORMS[form]['style']
+        pmax = {'many': 3, 'many-call': 3, 'many-lazy': 2, 'ragged': 2}.get(st, 3)
+        if tier == 'thorough':
+            pmax += 1
+        for n in range(0, pmax + 1):
+            out.append((form, n, POS_MODES))
     out.sort(key=lambda it: it[1])      # simplest first (stable: keeps the seed's rotation of the forms)
     # exception-type space: every other exception type x every form whose user function raises it
     kinds = []
@@ -441,7 +519,14 @@ def items(tier, seed):
                 for kind in PIPE_KINDS:
                     if n <= 2:
                         pipes.append(('@pipe', up, down, n, kind))
-    return out + kinds + stateful + data + pipes
+    # columns with hash-equal cells of different types / repeated values, type-sensitive and fail-once functions
+    eqs = []
+    for n in range(1, (3 if tier == 'thorough' else 2) + 1):
+        for form in spaces.rotate(sorted(BUILD), seed):
+            if ref.FORMS[form]['style'] == 'num' and not ref.FORMS[form].get('where'):
+                for state in ('pure', 'fail-once'):
+                    eqs.append(('@eq', form, n, state))
+    return out + kinds + stateful + data + pipes + eqs
 
 
 KIND_MODES = ('arg', 'config')
@@ -535,7 +620,20 @@ def pipe_tables(n):
         yield ref.table('num', _R, n, bad, exc, 'ValueError'), None
 
 
+def eq_tables(n):
+    ea, eb = ref.eq_alphabets(_R)
+    rowkinds = [(a, b) for a in ea for b in eb]
+    for rows in itertools.product(rowkinds, repeat=n):
+        yield ref.eq_table(_R, rows), None
+
+
 def run_item(item, acc):
+    if item[0] == '@eq':
+        _, form, n, state = item
+        evs = KIND_ERRORVALUES if ref.has_errorvalue(form) else (ref.OMIT,)
+        _run_tables(acc, form, eq_tables(n), KIND_MODES, evs, 'Boom', state, None,
+                    'hash-equal and repeated cells')
+        return
     if item[0] == '@data':
         _, form, n, dclass = item
         evs = KIND_ERRORVALUES if ref.has_errorvalue(form) else (ref.OMIT,)
@@ -590,6 +688,10 @@ def _run_tables(acc, form, tables, modes, evs, kind, state, upstream, family):
             ref.set_kind('Boom')
         flat = [c for r in e2['rows'][1:] for c in r]
         nx = sum(1 for c in flat if _is_exc(c))
+        if family == 'hash-equal and repeated cells':
+            rows = tbl[1:]
+            carried = any(rows[i][f] == rows[j][f] and ref.is_bang(rows[i][f])
+                          for f in (0, 1) for i in range(len(rows)) for j in range(i + 1, len(rows)))
         nontrivial = (0 < nx < len(flat)) if family is None else carried
         first = True
         for mode in modes:
@@ -632,7 +734,8 @@ def _run_tables(acc, form, tables, modes, evs, kind, state, upstream, family):
                     if bad is not None:
                         sig, expected, observed, msg = bad
                         if mode != 'arg' and check_case(dict(case, mode='arg'))[0] is None:
-                            sig += ' [only when the policy is supplied via %s]' % mode
+                            sig += (' [only when the policy is passed positionally]' if mode in POS_MODES
+                                    else ' [only when the policy is supplied via %s]' % mode)
                         acc.violation('%s | %s' % (FUNCTION[case['form']], sig), case, expected, observed, msg)
 
 
@@ -644,7 +747,7 @@ def vacuity(cov, tier):
            ['no non-trivial case with %s user functions' % st for st in ref.STATES[1:]
             if not c.get('nontrivial with %s user functions' % st)] + \
            ['no non-trivial case in family %r for %s' % (fam, fn)
-            for fam in ('exception objects as data', 'two-stage pipelines')
+            for fam in ('exception objects as data', 'two-stage pipelines', 'hash-equal and repeated cells')
             for fn in (('convert', 'fieldmap', 'rowmap', 'rowmapmany') if fam.startswith('exception')
                        else ('convert', 'fieldmap', 'rowmap'))
             if not c.get('nontrivial %s:%s' % (fam, fn))]
